@@ -1,14 +1,14 @@
 """C17 lambda statements never reuse stale closure values.
 
-Engine H: for each of 16 lambda statement shapes (lambda_stmt, ``+=`` chains,
+Engine H: for each of 17 lambda statement shapes (lambda_stmt, ``+=`` chains,
 conditional chains, nested ``where(lambda: ...)``, with_loader_criteria(lambda)
 through a Session, closure scalars / two scalars / strings / lists for IN /
 columns / tables / None / limit values / module globals / object attributes /
 function results / DML) every sequence of invocations of length <= 3 (quick)
 / <= 4 (thorough) over the shape's closure-value alphabet is executed on
-*fresh* lambda code (the source of the shape is compiled under a new file name
+*fresh* lambda code (the source of the shape is compiled at a new line offset
 for every history, because the lambda system keys its analysis by code
-object and code objects compare by value) against one engine whose compiled
+object and code objects compare by value, file name excluded) against one engine whose compiled
 cache is cleared at the start of a history.
 
 Oracle (differential, quoted from the property): each invocation's
@@ -34,7 +34,17 @@ Genuine defects found on the unchanged tree (kept, stable signatures):
     or AttributeError escapes from the cache key getter.
 
 Mutations caught (each seeded alone in a scratch copy, VIOLATION obtained):
-  see MUTATIONS at the end of this docstring.
+  M2 sql/lambdas.py _bound_parameter_getter_func_closure reads the value of the first (instrumented) invocation's cell
+  M3 sql/lambdas.py _cache_key_getter_closure_variable: HasCacheKey closure values no longer contribute to the key
+  M4 sql/lambdas.py LambdaElement._gen_cache_key drops closure_cache_key (column closure of a single lambda)
+  M5 sql/lambdas.py _setup_binds_for_tracked_expr: expanding flag not copied to the fresh bind (IN lists)
+  M6 sql/lambdas.py _bound_parameter_getter_func_globals reads the first invocation's global value
+  M7 sql/lambdas.py _gen_cache_key no longer hands the resolved bindparams to the statement cache key (stale values)
+  M9 orm/util.py LoaderCriteriaOption._traverse_internals loses "where_criteria" (lambda criteria not in the cache key)
+  (not caught, judged equivalent for executed values: replacing new_bind.value by orig_bind.value in
+  _retrieve_tracker_rec - the bindparam trackers overwrite the values afterwards; skipping
+  _setup_binds_for_tracked_expr in DeferredLambdaElement._resolve_with_args - the statement cache key's extracted
+  parameters replace the compile-time values at every execution)
 """
 from __future__ import annotations
 
@@ -60,18 +70,21 @@ META = dict(
     "against the directly built statement executed uncached (cursor-level SQL, parameters, rows)",
     design_ref="DESIGN.md §5 C17",
     level_text="All invocation sequences of length <=3 (quick) / <=4 (thorough) over each shape's closure-value alphabet "
-    "(ints, strings, None, lists of length 0..2, two columns, two tables, limit values, globals) for 16 lambda statement "
+    "(ints, strings, None, lists of length 0..2, two columns, two tables, limit values, globals) for 17 lambda statement "
     "shapes are run on the real lambda machinery with a shared compiled cache; every invocation is compared with the "
     "non-lambda statement built from the current values and executed uncached. Exhaustive for the bound: any stale "
     "closure value, stale structure or wrong bound-parameter extraction reachable within 4 invocations of these shapes is found.",
     level_note="Trusted: the directly built statement on an uncached connection is the reference. Lambda analysis is keyed by "
-    "code object (compared by value), so every history compiles the shape source under a unique file name to start "
+    "code object (compared by value), so every history compiles the shape source at a unique line offset to start "
     "from a fresh lambda state; the process-wide lambda LRU is otherwise left alone.",
     rule="state = (shape, first closure value, set of values seen so far); transition = one invocation (build lambda statement, "
     "execute, compare with direct statement); every transition is validated against the direct route; non-trivial = the "
     "invocation re-used an analysed lambda (history position >= 2) with a value different from the first",
     assumptions=["single thread", "closure values are the ones listed per shape", "SQLite executes both routes"],
-    bounds=dict(quick="16 shapes, all value sequences of length <= 3", thorough="16 shapes, all value sequences of length <= 4"),
+    bounds=dict(
+        quick="17 shapes, all value sequences of length <= 3, each with a shared compiled cache and with the compiled cache cleared before every invocation",
+        thorough="17 shapes, all value sequences of length <= 4, both compiled-cache modes",
+    ),
 )
 
 # ------------------------------------------------------------------ world
@@ -203,9 +216,9 @@ def direct(v):
     "nested_lambda": dict(
         src="""
 def make(x):
-    return select(t.c.id).where(lambda: t.c.a == x).where(lambda: t.c.b <= x + 1).order_by(t.c.id)
+    return select(t.c.id).where(lambda: t.c.a >= x).where(lambda: t.c.b <= x).order_by(t.c.id)
 def direct(x):
-    return select(t.c.id).where(t.c.a == x).where(t.c.b <= x + 1).order_by(t.c.id)
+    return select(t.c.id).where(t.c.a >= x).where(t.c.b <= x).order_by(t.c.id)
 """,
         alphabet=[("i", 1), ("i", 2), ("i", 0)],
     ),
@@ -342,11 +355,15 @@ _uniq = itertools.count()
 
 
 def fresh_functions(shape):
-    """compile the shape's source under a file name never used before: new,
-    unequal code objects -> no lambda analysis is shared with earlier histories"""
+    """compile the shape's source at a line offset never used before: code
+    objects compare by value (name, first line number, bytecode, constants --
+    *not* the file name), and the lambda system keys its analysis and caches by
+    code object, so only a new line number gives new, unequal code objects and
+    thereby a lambda state not shared with earlier histories"""
     ns = dict(t=t, t2=t2, TT=TT)
-    fname = "<c17-%s-%d>" % (shape, next(_uniq))
-    exec(compile(PRELUDE + SHAPES[shape]["src"], fname, "exec"), ns)
+    k = next(_uniq)
+    fname = "<c17-%s-%d>" % (shape, k)
+    exec(compile(PRELUDE + "\n" * k + SHAPES[shape]["src"], fname, "exec"), ns)
     return ns["make"], ns["direct"]
 
 
@@ -389,8 +406,11 @@ class Db:
 REFUSALS = (sa_exc.InvalidRequestError, sa_exc.ArgumentError)
 
 
-def run_history(shape, hist, dbs, rec=None):
-    """-> list of (kind, detail, step index); also feeds the recorder"""
+def run_history(shape, hist, dbs, rec=None, evict=False):
+    """-> list of (kind, detail, step index); also feeds the recorder.
+    evict=True: the engine's compiled cache is cleared before every invocation
+    (the lambda-level analysis and closure caches survive), so every invocation
+    re-compiles from the lambda system's *cached* expression objects"""
     spec = SHAPES[shape]
     lam_db, dir_db = dbs
     make, direct = fresh_functions(shape)
@@ -401,6 +421,8 @@ def run_history(shape, hist, dbs, rec=None):
     probs = []
     seen = set()
     for i, tok in enumerate(hist):
+        if evict:
+            lam_db.engine.clear_compiled_cache()
         val_l, val_d = decode(tok), decode(tok)
         dstmt = direct(val_d)
         dlog, drows = dir_db.run(dstmt, spec.get("orm"))
@@ -429,10 +451,9 @@ def run_history(shape, hist, dbs, rec=None):
             seen.add(tok)
             rec.transition()
             rec.trace()
-            rec.state((shape, hist[0], tuple(sorted(seen, key=repr))))
+            rec.state((shape, evict, hist[0], tuple(sorted(seen, key=repr))))
             rec.outcome((shape, outcome))
-        if probs:
-            break
+    # (the history is run to its end even after a failure: later invocations are still compared)
     return probs
 
 
@@ -440,14 +461,36 @@ def kind_of(tok):
     return {"i": "scalar", "s": "scalar", "none": "None", "col": "column", "l": "list", "lp": "list", "pair": "scalars", "cp": "column", "tp": "table", "foo": "object"}[tok[0]]
 
 
-def signature(shape, hist, kind, step):
-    """minimal failing sub-case: the failing value, the first value (which the
-    analysis was made from) if different in kind, by *kind* of value"""
+def analysis_kind(tok):
+    """how the lambda analysis classifies the value: None and scalars are both 'literal' (bound value)"""
+    k = kind_of(tok)
+    return "literal" if k in ("scalar", "None", "scalars") else k
+
+
+def signature(shape, hist, kind, step, evict=False):
+    """root-cause signature of a *minimised* history (see minimise): failure
+    class, kind of the failing value, kind of the value the analysis was made
+    from.  The shape is left out on purpose: one root cause, one signature."""
     first, cur = hist[0], hist[step]
     if step == 0:
-        return "C17 %s shape=%s: first invocation with a %s closure value" % (kind, shape, kind_of(cur))
-    return "C17 %s shape=%s: %s closure value after a first invocation with a %s value (%d earlier invocations)" % (
-        kind, shape, kind_of(cur), kind_of(first), step)
+        return "C17 %s: first invocation with a %s closure value" % (kind, kind_of(cur))
+    return "C17 %s: %s closure value after a first invocation with a %s value%s" % (
+        kind, analysis_kind(cur), analysis_kind(first), " [compiled cache cleared between invocations]" if evict else "")
+
+
+def minimise(shape, hist, kind, step, dbs, evict=False):
+    """shortest failing sub-history with the same failure class, shared compiled cache first:
+    [failing value] alone, then [first, failing], then the same with cache clearing"""
+    cands = [((hist[step],), False), ((hist[0], hist[step]), False)]
+    if evict:
+        cands.append(((hist[0], hist[step]), True))
+    for cand, ev in cands:
+        if len(cand) > step + 1 or (len(cand) == step + 1 and ev == evict):
+            continue
+        for k2, d2, s2 in run_history(shape, cand, dbs, evict=ev):
+            if k2 == kind and s2 == len(cand) - 1:
+                return cand, d2, s2, ev
+    return hist[: step + 1], None, step, evict
 
 
 def shards(tier, seed):
@@ -462,13 +505,21 @@ def run_shard(shard, tier, rec):
     alpha = spec["alphabet"]
     for n in range(1, depth + 1):
         for hist in itertools.product(alpha, repeat=n):
-            probs = run_history(shape, hist, dbs, rec)
-            rec.case((shape, hist), nontrivial=n >= 2 and len(set(hist)) > 1)
-            if n == 3 and len(set(hist)) == 3 and not probs:
-                rec.sample(dict(shape=shape, history=[list(h) for h in hist]))
-            for kind, detail, step in probs:
-                sub = hist[: step + 1]
-                rec.violation(signature(shape, sub, kind, step), detail, dict(shape=shape, history=[list(h) for h in sub]), kind=(shape, kind, kind_of(sub[0]), kind_of(sub[step]), step == 0))
+            for evict in (False, True):
+                if evict and n == 1:
+                    continue  # identical to the cached run
+                probs = run_history(shape, hist, dbs, rec, evict=evict)
+                rec.case((shape, hist, evict), nontrivial=n >= 2 and len(set(hist)) > 1)
+                if n == 3 and len(set(hist)) == 3 and not probs:
+                    rec.sample(dict(shape=shape, history=[list(h) for h in hist], compiled_cache="cleared before each step" if evict else "shared"))
+                for kind, detail, step in probs:
+                    sub, d2, st2, ev = minimise(shape, hist, kind, step, dbs, evict)
+                    rec.violation(
+                        signature(shape, sub, kind, st2, ev),
+                        d2 or detail,
+                        dict(shape=shape, history=[list(h) for h in sub], evict=ev),
+                        kind=(kind, analysis_kind(sub[0]), kind_of(sub[st2]) if st2 == 0 else analysis_kind(sub[st2]), st2 == 0, ev),
+                    )
     for d in dbs:
         d.engine.dispose()
 
@@ -482,6 +533,7 @@ def replay(case):
     hist = tuple(_tup(h) for h in case["history"])
     dbs = (Db(True), Db(False))
     out = []
-    for kind, detail, step in run_history(shape, hist, dbs):
-        out.append((signature(shape, hist[: step + 1], kind, step), detail))
+    ev = bool(case.get("evict"))
+    for kind, detail, step in run_history(shape, hist, dbs, evict=ev):
+        out.append((signature(shape, hist[: step + 1], kind, step, ev), detail))
     return out
